@@ -628,4 +628,99 @@ layout-independence theorem -/
 def layoutOK2 (io : FloatIO F) (d : Doc F) (lay : Layout) : Bool :=
   layoutOK io d lay && lay.slots.all slotNlOK
 
+/-! ### second extension round: several declarations on one line -/
+
+/-- the declaration of column `c` is written with brackets (`[n]`, `<n>`, `[]`) -/
+def hasBr (enums : List EnumDecl) (c : Col) : Bool :=
+  c.alen > 0 || ((strSize c.ty).isSome && (enums.find? (fun e => e.col == c.name)).isNone)
+
+/-- no declaration written with brackets before the next newline -/
+def lineRestOK (enums : List EnumDecl) : List Col → List ColLay → Bool
+  | c :: cs, l :: ls => l.pre.contains '\n' || (!hasBr enums c && lineRestOK enums cs ls)
+  | _, _ => true
+
+/-- what `type()` needs of a struct definition: a declaration written with brackets is the last such
+declaration of its line (`[\[<].*[\]>]` is greedy up to the last `];` / `>;` of the line); declarations
+without brackets may share a line freely -/
+def declLineOK (enums : List EnumDecl) : List Col → List ColLay → Bool
+  | c :: cs, _ :: ls => (!hasBr enums c || lineRestOK enums cs ls) && declLineOK enums cs ls
+  | _, _ => true
+
+/-- `declLineOK` for every struct definition of the file (the `sdef` slots write the tables in order) -/
+def sdefsLineOK (enums : List EnumDecl) : List (TableD F) → List Slot → Bool
+  | _, [] => true
+  | t :: ts, .sdef lay :: ss => declLineOK enums t.cols lay.cols && sdefsLineOK enums ts ss
+  | [], .sdef _ :: ss => sdefsLineOK enums [] ss
+  | ts, .pair _ :: ss => sdefsLineOK enums ts ss
+  | ts, .row _ _ :: ss => sdefsLineOK enums ts ss
+  | ts, .edef _ :: ss => sdefsLineOK enums ts ss
+  | ts, .filler _ _ :: ss => sdefsLineOK enums ts ss
+
+/-- the widened domain of the file-level theorem: `layoutOK` + at most one bracketed declaration per
+line of a struct definition (contains `layoutOK2`) -/
+def layoutOKW (io : FloatIO F) (d : Doc F) (lay : Layout) : Bool :=
+  layoutOK io d lay && sdefsLineOK d.enums d.tables lay.slots
+
+/-! ### second extension round: the file as read in text mode (universal newlines) -/
+
+/-- the layout of the universal-newline text: every line end is `\n`, every CR of a white-space run
+inside a definition is `\n` (CRLF collapses) -/
+def Sep.univ (s : Sep) : Sep := ⟨s.a, s.cont.map (fun x => (x.1, false, x.2.2))⟩
+
+def CellLay.univ : CellLay → CellLay
+  | .one q => .one q
+  | .many op q rest cl => .many op q (rest.map (fun x => (x.1.univ, x.2))) cl
+
+def RowLay.univ (l : RowLay) : RowLay :=
+  { l with cells := l.cells.map (fun x => (x.1.univ, x.2.univ)), crlf := false }
+
+def PairLay.univ (l : PairLay) : PairLay := { l with sep := l.sep.univ, crlf := false }
+
+def ColLay.univ (l : ColLay) : ColLay := { l with pre := univNl l.pre }
+
+def StructLay.univ (l : StructLay) : StructLay :=
+  { l with g1 := univNl l.g1, g2 := univNl l.g2, cols := l.cols.map ColLay.univ, closePre := univNl l.closePre,
+           g3 := univNl l.g3, g4 := univNl l.g4, crlf := false }
+
+def EnumLay.univ (l : EnumLay) : EnumLay :=
+  { l with g1 := univNl l.g1, g2 := univNl l.g2, op := univNl l.op, afterComma := l.afterComma.map univNl,
+           cl := univNl l.cl, g3 := univNl l.g3, g4 := univNl l.g4, crlf := false }
+
+def Slot.univ : Slot → Slot
+  | .pair lay => .pair lay.univ
+  | .row t lay => .row t lay.univ
+  | .sdef lay => .sdef lay.univ
+  | .edef lay => .edef lay.univ
+  | .filler text _ => .filler text false
+
+def Layout.univ (lay : Layout) : Layout := ⟨lay.slots.map Slot.univ, lay.finalEol⟩
+
+/-- white space and comments of a struct body, read in text mode: a CR inside a comment must be the CR of
+the CRLF that ends the comment (a lone CR is a line end in text mode: it would end the comment early) -/
+def tdWsCrOK : Bool → Str → Bool
+  | _, [] => true
+  | false, c :: t => tdWsCrOK (c == '#') t
+  | true, c :: t =>
+    if c == '\n' then tdWsCrOK false t else (c != '\r' || t.head? == some '\n') && tdWsCrOK true t
+
+def slotCrOK : Slot → Bool
+  | .sdef lay => lay.cols.all (fun l => tdWsCrOK false l.pre) && tdWsCrOK false lay.closePre
+  | _ => true
+
+/-- no comment inside a struct definition contains a lone CR -/
+def layoutCrOK (lay : Layout) : Bool := lay.slots.all slotCrOK
+
+def cellCrOK (io : FloatIO F) : Cell F → Bool
+  | .one v => !(scText io v).contains '\r'
+  | .many vs => vs.all (fun v => !(scText io v).contains '\r')
+
+/-- no cell, as printed, contains a CR (strings: part of `docOK2`; integers: always; floats: a property of
+the float printer) -/
+def tokCrOK (io : FloatIO F) (d : Doc F) : Bool :=
+  d.tables.all (fun t => t.rows.all (fun r => r.all (cellCrOK io)))
+
+/-- the domain of the text-mode theorem -/
+def layoutOKU (io : FloatIO F) (d : Doc F) (lay : Layout) : Bool :=
+  layoutOKW io d lay && layoutCrOK lay && tokCrOK io d
+
 end PydlVerif.Yanny
